@@ -605,6 +605,17 @@ def reset_specs(fn, aliases, nested_types):
                 out[key] = Spec("fill", value(stmt["args"][0]), "N")
             elif stmt["name"] == "clear" or _is_cell_take(stmt):
                 out[key] = Spec("empty", "", "")
+            elif stmt["name"] == "extend" and len(stmt["args"]) == 1 and key in out and out[key].kind == "empty":
+                # v.clear(); v.extend(0..n)  /  v.extend(repeat(c).take(n))  rebuilds the vector from nothing
+                a = nf.nf(stmt["args"][0], casts=True, res=_R(fn))
+                m_ = re.match(r"^std::ops::Range\{start:0, end:(.*)\}$", a)
+                m2 = re.match(r"^std::iter::repeat\((.*)\)\.take\((.*)\)$", a)
+                if m_:
+                    out[key] = Spec("iota", "", _norm(m_.group(1), aliases))
+                elif m2:
+                    out[key] = Spec("fill", _norm(m2.group(1), aliases), _norm(m2.group(2), aliases))
+                else:
+                    out[key] = Spec("unknown", "extend(%s) after clear()" % a[:40], "")
             elif stmt["name"] == "reset" and key in nested_types:
                 out[key] = Spec("fresh", nested_types[key], "N")
         elif k == "Match" and stmt.get("src") == "ForLoopDesugar":
